@@ -88,7 +88,8 @@ Width(dt) == IF dt = "b" THEN 1 ELSE 8     \* bytes per element (strings are two
 (* Does an operand fit m target cells?  "fit" / "reject" / "free".          *)
 (* whole and slice (containers.py:288-303, 447-450): a scalar broadcasts, a *)
 (* 1-D operand must have exactly m elements, rank >= 2 never fits; a        *)
-(* length-1 ARRAY is unconstrained (NumPy broadcasts it, DESIGN 8).         *)
+(* length-1 ARRAY is unconstrained (NumPy broadcasts it, DESIGN 8), and so  *)
+(* is any one-element sequence assigned to a label slice.                  *)
 (* label (containers.py:452-453): scalars only.                             *)
 (* add (containers.py:166-183): documented flatten - total length decides.  *)
 (***************************************************************************)
@@ -99,7 +100,9 @@ Fit(opd, m, L, path) ==
     [] path = "add" -> IF Rank(opd) = 1
                          THEN (IF sh[1] = L THEN "fit" ELSE IF opd.cls = "Arr1One" THEN "free" ELSE "reject")
                          ELSE (IF Total(sh) # L THEN "reject" ELSE IF IsArray(opd) THEN "free" ELSE "fit")
-    [] Rank(opd) = 1 -> IF sh[1] = m THEN "fit" ELSE IF opd.cls = "Arr1One" THEN "free" ELSE "reject"
+    [] Rank(opd) = 1 -> IF sh[1] = m THEN "fit"
+                        ELSE IF opd.cls = "Arr1One" \/ (path = "slice" /\ sh[1] = 1) THEN "free"   \* NumPy broadcasts one element over a slice
+                        ELSE "reject"
     [] OTHER -> "reject"
 (* the m values an accepted operand delivers *)
 Vals(opd, m) == [j \in 1..m |-> IF Rank(opd) = 0 \/ opd.cls = "Arr1One" THEN Elem(opd, 1) ELSE Elem(opd, j)]
